@@ -98,6 +98,7 @@ type getSite struct {
 	fields, assigned        []string
 	whole                   bool
 	stop                    string
+	steps                   []initStep
 	initPos                 []string // positions of the initialising statements (where the object is overwritten)
 }
 
@@ -136,8 +137,8 @@ var internalTypes = map[string]bool{"SweepPoint": true, "SweepEvents": true, "Sw
 	"toleranceSquares": true, "toleranceSquare": true}
 
 func main() {
-	if len(os.Args) != 3 {
-		fmt.Fprintln(os.Stderr, "usage: facts <repo> <out.lean>")
+	if len(os.Args) < 3 {
+		fmt.Fprintln(os.Stderr, "usage: facts <repo> <out.lean> [name=dir=posprefix ...]   (extra packages outside the repo, e.g. a dependency in the module cache)")
 		os.Exit(2)
 	}
 	repo := os.Args[1]
@@ -153,6 +154,22 @@ func main() {
 		p.analyse()
 		all = append(all, p)
 	}
+	for _, extra := range os.Args[3:] {
+		f := strings.SplitN(extra, "=", 3)
+		if len(f) != 3 {
+			fmt.Fprintln(os.Stderr, "facts: bad extra package", extra)
+			os.Exit(1)
+		}
+		posPrefix = f[2]
+		p, err := load(f[0], f[1], f[1])
+		posPrefix = ""
+		if err != nil {
+			fmt.Fprintln(os.Stderr, "facts:", err)
+			os.Exit(1)
+		}
+		p.analyse()
+		all = append(all, p)
+	}
 	var b bytes.Buffer
 	emit(&b, all)
 	emitFontLevel(&b, all)
@@ -161,6 +178,8 @@ func main() {
 		os.Exit(1)
 	}
 }
+
+var posPrefix string
 
 func tagOK(tag string) bool {
 	return tag == "linux" || tag == "amd64" || tag == "gc" || tag == "unix" || strings.HasPrefix(tag, "go1.")
@@ -199,6 +218,7 @@ func load(name, dir, repo string) (*pkgInfo, error) {
 			continue
 		}
 		rel, _ := filepath.Rel(repo, filepath.Join(dir, n))
+		rel = posPrefix + rel
 		f, err := parser.ParseFile(p.fset, rel, src, parser.ParseComments)
 		if err != nil {
 			return nil, err
@@ -996,6 +1016,7 @@ func (p *pkgInfo) pools() {
 								}
 							}
 							p.initScan(&g, oid, list[idx+1:])
+							g.steps = p.stepScan(&g, oid, list[idx+1:])
 						}
 					}
 				}
@@ -1217,6 +1238,21 @@ func leanSync(s syncT) string {
 	return ".none"
 }
 
+func leanSteps(l []initStep) string {
+	var r []string
+	for _, s := range l {
+		k := ".use"
+		switch s.kind {
+		case "set":
+			k = "(.set " + q(s.field) + ")"
+		case "setAll":
+			k = ".setAll"
+		}
+		r = append(r, fmt.Sprintf("⟨%s, %s, %s, %v⟩", q(s.pos), k, qs(s.reads), s.whole))
+	}
+	return "[" + strings.Join(r, ",\n      ") + "]"
+}
+
 func leanSites(l []site) string {
 	if len(l) == 0 {
 		return "[]"
@@ -1261,8 +1297,8 @@ func emit(b *bytes.Buffer, all []*pkgInfo) {
 	for _, p := range all {
 		for _, g := range p.gets {
 			g.pool = p.name + "." + g.pool
-			gs = append(gs, fmt.Sprintf("{ pkg := %s, pool := %s, typ := %s, fn := %s, pos := %s, obj := %s,\n    fields := %s,\n    assigned := %s,\n    whole := %v, stop := %s, initPos := %s }",
-				q(p.name), q(g.pool), q(g.typ), q(g.fn), q(g.pos), q(g.obj), qs(g.fields), qs(g.assigned), g.whole, q(g.stop), qs(g.initPos)))
+			gs = append(gs, fmt.Sprintf("{ pkg := %s, pool := %s, typ := %s, fn := %s, pos := %s, obj := %s,\n    fields := %s,\n    assigned := %s,\n    whole := %v, stop := %s, initPos := %s,\n    steps := %s }",
+				q(p.name), q(g.pool), q(g.typ), q(g.fn), q(g.pos), q(g.obj), qs(g.fields), qs(g.assigned), g.whole, q(g.stop), qs(g.initPos), leanSteps(g.steps)))
 		}
 		for _, s := range p.puts {
 			ps = append(ps, fmt.Sprintf("{ pool := %s, fn := %s, pos := %s, arg := %s, loops := %s, inTail := %v }", q(s.pool), q(s.fn), q(s.pos), q(s.arg), qs(s.loops), s.inTail))
@@ -1287,6 +1323,23 @@ func emit(b *bytes.Buffer, all []*pkgInfo) {
 	fmt.Fprintf(b, "def getSites : List GetSite := [\n  %s]\n\n", strings.Join(gs, ",\n  "))
 	fmt.Fprintf(b, "def putSites : List PutSite := [\n  %s]\n\n", strings.Join(ps, ",\n  "))
 	fmt.Fprintf(b, "/-- field lists of the pooled struct types -/\ndef pooledStructs : List (String × List String) := [\n  %s]\n\n", strings.Join(sts, ",\n  "))
+	var pfs []string
+	for _, p := range all {
+		for _, f := range p.putFuncFacts() {
+			var ss []string
+			for _, st := range f.stmts {
+				k := ".other"
+				if st[1] == "release" {
+					k = ".release"
+				} else if st[1] == "return" {
+					k = ".ret"
+				}
+				ss = append(ss, fmt.Sprintf("(%s, %s)", q(st[0]), k))
+			}
+			pfs = append(pfs, fmt.Sprintf("{ pkg := %s, fn := %s, stmts := [%s] }", q(p.name), q(f.fn), strings.Join(ss, ", ")))
+		}
+	}
+	fmt.Fprintf(b, "/-- top-level statements of every function that returns objects to a pool -/\ndef putFuncs : List PutFunc := [\n  %s]\n\n", strings.Join(pfs, ",\n  "))
 	var pf []string
 	for _, p := range all {
 		var ks []string
